@@ -297,7 +297,7 @@ def run_gram_basic(case, ctx: Ctx):
         # coincident rows: `dist` guards sqrt(0) with clamp_min(1e-30)
         ctx.check("gram.input_grad_finite", bool(torch.isfinite(grad).all()), f"d sum(W*K) / dx has non-finite entries: {grad.reshape(-1)[:6].tolist()}")
     ctx.label(*[f"class={c}" for c in classes], f"dups={min(dups, 3)}", f"near={min(near, 3)}", f"extreme={recipe_extreme(r)}",
-              f"req_grad={case['req_grad']}", f"n={'2-4' if case['n'] <= 4 else ('5-8' if case['n'] <= 8 else '9-12')}")
+              f"req_grad={case['req_grad']}")
 
 
 # ====================================================================================================
@@ -449,6 +449,8 @@ def run_gram_special(case, ctx: Ctx):
     name = case["k"]
     sub = case.get("radial") or (case.get("base") if isinstance(case.get("base"), dict) else None) or case.get("data")
     ctx.cls = name + (f"[{sub['k']}]" if sub else (f"[{case['base']}]" if name == "Arc" else ""))
+    if name == "LCM" and any(b.get("ad") is not None for b in case["bases"]):
+        ctx.cls += "/ad"  # component kernels with active_dims (see out/proposed_known/C07.json)
     with ctx.observing("build"):
         k, x, e = build_special(case)
     with ctx.observing("evaluate"):
@@ -462,8 +464,7 @@ def run_gram_special(case, ctx: Ctx):
     else:
         dups, near = geometry(x)
     judge_gram(ctx, Kd, e, [name], dups + near > 0 or special_extreme(case), case.get("search", False))
-    ctx.label(f"class={name}", f"dups={min(dups, 3)}", f"near={min(near, 3)}", f"extreme={special_extreme(case)}",
-              *([f"class={name}[{sub['k']}]"] if sub else []))
+    ctx.label(f"class={name}", f"dups={min(dups, 3)}", f"near={min(near, 3)}", f"extreme={special_extreme(case)}")
 
 
 # ====================================================================================================
@@ -520,7 +521,7 @@ def run_gram_deriv(case, ctx: Ctx):
     dups, near = geometry(X)
     ext = extreme(_flat(case["lengthscale"])) if "lengthscale" in case else False
     judge_gram(ctx, Kd, e, [name], dups + near > 0 or ext, case.get("search", False))
-    ctx.label(f"class={name}", f"dups={min(dups, 3)}", f"near={min(near, 3)}", f"extreme={ext}", f"d={d}",
+    ctx.label(f"class={name}", f"dups={min(dups, 3)}", f"near={min(near, 3)}", f"extreme={ext}",
               *([f"polygrad.power={case['power']}", f"polygrad.zero_base={case.get('zero_base', False)}"] if name == "PolyGrad" else []))
 
 
@@ -602,8 +603,7 @@ def run_exact_cov(case, ctx: Ctx):
     shrink = float((Kss - cov_w).diagonal(dim1=-1, dim2=-2).max())
     ctx.set_nontrivial(case["n"] >= 2 and case["ns"] >= 2 and shrink > 1e-3 * scale)
     ctx.label("dist=exact", G.settings_label(s).split(",")[2], f"chol={s['max_chol']}", f"fpv={int(s['fpv'])}", f"lazy={int(s['lazy'])}",
-              f"lik={case['lik']['l']}{'+' if case['lik'].get('learn') else ''}", f"mb={case['mb']}", f"tb={case['tb']}", f"iter={G.is_iterative(s)}",
-              *{f"leaf={l['k']}" for l in kern.leaves(case["kernel"])})
+              f"lik={case['lik']['l']}{'+' if case['lik'].get('learn') else ''}", f"batch={bool(case['mb'] or case['tb'])}", f"iter={G.is_iterative(s)}")
 
 
 # ----------------------------------------------------------------------------------------------------
@@ -664,8 +664,7 @@ def run_nested(case, ctx: Ctx):
     psd_report(ctx, "nested.cov_D_minus_cov_D'", c0 - c1, tol, scale)
     gain = float((w0 - w1).diagonal().max())
     ctx.set_nontrivial(gain > 1e-3 * scale)
-    ctx.label("dist=nested", f"lik={case['lik']['l']}{'+' if case['lik'].get('learn') else ''}", f"fpv={int(s['fpv'])}", f"xs={case['xs_mode']}", f"m={m}",
-              *{f"leaf={l['k']}" for l in kern.leaves(case["kernel"])})
+    ctx.label("dist=nested", f"nested.lik={case['lik']['l']}{'+' if case['lik'].get('learn') else ''}", f"nested.xs={case['xs_mode']}")
 
 
 # ====================================================================================================
@@ -724,7 +723,7 @@ def run_var_cov(case, ctx: Ctx):
     minv = S.min_variance.value(qv.dtype)
     ctx.check("q_f.variance_floor", bool((qv >= minv).all()) and bool(torch.isfinite(qv).all()), f"variance {qv.tolist()[:4]} below min_variance {minv}")
     ctx.set_nontrivial(VM.q_is_nontrivial(m, Sq) and case["n"] >= 2)
-    ctx.label("dist=variational", f"cell={strat}/{dist}", f"xmode={case['xmode']}", f"jitter={r['jitter']}")
+    ctx.label("dist=variational", f"cell={strat}/{dist}", f"xmode={case['xmode']}")
 
 
 # ====================================================================================================
